@@ -1,5 +1,6 @@
 import BlockModes.Impl.Mem
 import BlockModes.Lemmas.Xor
+import BlockModes.Lemmas.MemCtsApi
 /-
   C12 — in-place and buffer-to-buffer operation give identical results.
 
@@ -104,6 +105,47 @@ theorem cfb_decPar_b2b (C : Cipher) (iv : Bytes) (chunk garbage : List Bytes) (h
       | nil => simp at hg
       | cons g gs => simp only [List.length_cons, Nat.add_right_cancel_iff] at hg; simp [ih gs hg]
   simp only [Mem.Cfb.decPar, hin, Cfb.decPar, zipWith_xorIn2Out_out]
+
+/-! ### ciphertext stealing: the twelve closures of cts/src/{cbc,ecb}_cs{1,2,3}.rs on the flat in/out buffer
+
+  `Impl/MemCts.lean` mirrors the closures and cts/src/lib.rs statement by statement on `IOBuf` (block loops with
+  the hand-written parallel body of `cbc_dec`, `into_chunks`, `split_at`, `mem::replace`, `mem::swap`,
+  `copy_from_slice` on overlapping regions of the input and output views). -/
+
+open Impl.MemCts in
+/-- **CTS, all six types, both directions**: in place on `m`, and buffer-to-buffer from `m` into an output
+    buffer holding arbitrary bytes `g`, the call succeeds and writes the same bytes — those of the value-level
+    mirror (which `C05` proves equal to the NIST formulation).  Every block size ≥ 1, every backend width, every
+    length ≥ one block.  (A CTS object is consumed by the call, so there is no state left behind to compare.) -/
+theorem cts_alias_indep (o : MemCts.Op) (C : Cipher) (hC : C.Valid) (w : Nat) (iv : Bytes) (hiv : iv.length = C.bs)
+    (m g : Bytes) (hm : C.bs ≤ m.length) (hg : g.length = m.length) :
+    ∃ a b, o.mem C w iv (IOBuf.inplace m) = some a ∧ o.mem C w iv (IOBuf.b2b m g) = some b ∧
+      a.out = b.out ∧ a.out = o.val C w iv m := by
+  obtain ⟨a, ha1, ha2⟩ := op_ok o C hC w iv hiv (IOBuf.inplace m) (WF_inplace m) (by simpa using hm)
+  obtain ⟨b, hb1, hb2⟩ := op_ok o C hC w iv hiv (IOBuf.b2b m g) (WF_b2b m g hg.symm) (by simp; omega)
+  exact ⟨a, b, ha1, hb1, by rw [ha2, hb2]; rfl, ha2⟩
+
+open Impl.MemCts in
+/-- the same at the level of the public calls (`encrypt`/`decrypt` vs `encrypt_b2b`/`decrypt_b2b`), gate and
+    `InOutBuf::new` included: equal-length buffers give the same outcome in both forms (both `Err` when shorter
+    than a block, both `Ok` with the same bytes otherwise). -/
+theorem cts_calls_agree (o : MemCts.Op) (C : Cipher) (hC : C.Valid) (w : Nat) (iv : Bytes) (hiv : iv.length = C.bs)
+    (m g : Bytes) (hg : g.length = m.length) :
+    (inplaceCall C.bs (o.mem C w iv) m = .err m ∧ b2bCall C.bs (o.mem C w iv) m g = .err g ∧ m.length < C.bs) ∨
+    (inplaceCall C.bs (o.mem C w iv) m = .ok (o.val C w iv m) ∧ b2bCall C.bs (o.mem C w iv) m g = .ok (o.val C w iv m)
+      ∧ C.bs ≤ m.length) := by
+  rw [inplaceCall_eq o C hC w iv hiv, b2bCall_eq o C hC w iv hiv]
+  by_cases h : m.length < C.bs
+  · left; simp [h, hg]
+  · right; simp [h, hg]; omega
+
+/-- non-vacuity and a concrete run: CBC-CS3 decrypt on a 5-byte buffer with 2-byte blocks (three chunks: one full
+    pair through the width-2 parallel body, stealing on the rest), in place vs into a dirty buffer. -/
+example :
+    let C := Toy.cipher [1,2,3,4,5,6,7,8,9,10,11,12,13,14,15,16] 2
+    (MemCts.Op.cbc3d.mem C 2 [7, 9] (IOBuf.inplace [1, 2, 3, 4, 5])).map (·.out)
+      = (MemCts.Op.cbc3d.mem C 2 [7, 9] (IOBuf.b2b [1, 2, 3, 4, 5] [200, 201, 202, 203, 204])).map (·.out) := by
+  decide
 
 /-! ### the model can tell the two forms apart -/
 
